@@ -9,7 +9,7 @@ NUL = B("null")
 WORDS = ["range", "token", "label", "content", "version", "language", "pattern", "scheme", "folder", "symbol", "value", "detail", "selection", "document", "workspace", "provider", "support", "options", "offset", "severity", "message", "source", "target", "origin", "context", "trigger", "filter", "format", "encoding", "position", "identifier", "resolve", "dynamic", "registration", "capability", "snippet", "preview", "annotation", "metadata", "revision"]
 KW = ["class", "from", "import", "lambda", "global", "pass", "with", "yield", "async", "in", "is", "not", "def", "del", "try"]
 MIXINS = ["WorkDoneProgressParams", "PartialResultParams", "StaticRegistrationOptions", "TextDocumentPositionParams"]
-OPS = ("E1", "E2", "E3", "E4", "E5", "E6", "E7")
+OPS = ("E1", "E2", "E3", "E4", "E5", "E6", "E7", "E8")
 
 
 def camel(ws):
@@ -227,15 +227,23 @@ class Evo:
                 self.touched.add(st["name"])
                 self.log.append("E2 %s.%s %s" % (st["name"], p["name"], p["type"]["kind"]))
 
-    def E3(self):
+    def E3(self, deep=False):
         """extends / mixins on a NEW structure from existing or new structures (no conflicting redeclarations)."""
         nm = self.name(True)
         st = {"name": nm, "properties": []}
         base = self.r.choice(self.structs())
         st["extends"] = [R(base)]
         have = self.allprops(base)
-        if self.r.random() < 0.6:
-            mx = self.r.choice(MIXINS + self.new_structs[:2])
+        if self.r.random() < 0.6 or deep:
+            pool = MIXINS + self.new_structs[:2]
+            if deep:
+                # a mixin that has its own parents: properties must arrive transitively
+                withparents = [n for n in self.new_structs if any(x["name"] == n and (x.get("extends") or x.get("mixins")) for x in self.d["structures"])]
+                if not withparents:
+                    self.E3()
+                    withparents = [self.new_structs[-1]]
+                pool = withparents
+            mx = self.r.choice(pool)
             if mx != base and not (self.allprops(mx) & have):
                 st["mixins"] = [R(mx)]
                 have |= self.allprops(mx)
@@ -271,13 +279,18 @@ class Evo:
             e["values"].append(v)
             self.log.append("E4 value %s.%s" % (e["name"], vn))
 
-    def E5(self, with_typename=None, kind=None):
+    def E5(self, with_typename=None, kind=None, dollar=None):
         r = self.r
-        m = "verif/" + camel([r.choice(WORDS), r.choice(WORDS)]) + str(self.n)
+        prefix = "$/verif" if (dollar if dollar is not None else r.random() < 0.2) else "verif/"
+        m = prefix + camel([r.choice(WORDS), r.choice(WORDS)]) + str(self.n)
+        if prefix == "$/verif":
+            m = "$/verif" + m[len("$/verif"):][:1].upper() + m[len("$/verif") + 1:]
         self.n += 1
         par = R(r.choice(self.new_structs or self.structs()))
         stem = m.split("/")[1]
         stem = stem[0].upper() + stem[1:]
+        if m.startswith("$/"):
+            stem = "Dollar" + stem
         tn = (r.random() < 0.5) if with_typename is None else with_typename
         if (kind or ("request" if r.random() < 0.6 else "notification")) == "request":
             res = r.choice([NUL, R(r.choice(self.structs())), {"kind": "array", "element": R(r.choice(self.structs()))}, {"kind": "or", "items": [R(r.choice(self.structs())), NUL]}])
@@ -302,12 +315,49 @@ class Evo:
             self.log.append("E5 notif %s typeName=%s" % (m, tn))
         self.new_methods.append(m)
 
-    def E6(self):
+    def E8(self):
+        """a NEW structure extends an existing one and re-declares one inherited property with a
+        different optionality or a narrower type (nearest declaration wins) - as CreateFile.kind
+        does in the committed model."""
+        for _ in range(30):
+            base = self.r.choice(self.structs())
+            inherited = {}
+            st = [x for x in self.d["structures"] if x["name"] == base][0]
+            for p in st["properties"]:
+                inherited[p["name"]] = p
+            cands = [p for p in inherited.values() if p["type"]["kind"] == "base" and p["type"]["name"] in ("string", "integer", "uinteger", "boolean")]
+            if not cands:
+                continue
+            p = self.r.choice(cands)
+            nm = self.name(True)
+            q = {"name": p["name"], "type": copy.deepcopy(p["type"])}
+            mode = self.r.choice(["optionality", "literal" if p["type"]["name"] == "string" else "optionality", "nullable"])
+            if mode == "optionality":
+                if not p.get("optional"):
+                    q["optional"] = True
+            elif mode == "literal":
+                q["type"] = {"kind": "stringLiteral", "value": "verif-" + p["name"]}
+            else:
+                q["type"] = {"kind": "or", "items": [copy.deepcopy(p["type"]), NUL]}
+            self.d["structures"].append({"name": nm, "properties": [q], "extends": [R(base)]})
+            self.new_structs.append(nm)
+            self.touched.add(nm)
+            self.log.append("E8 %s extends %s redeclares %s (%s)" % (nm, base, p["name"], mode))
+            return
+
+    def E6(self, both=False):
         sec = self.r.choice(["structures", "enumerations", "typeAliases", "requests", "notifications"])
         node = self.r.choice(self.d[sec])
         if self.r.random() < 0.4 and sec == "structures" and node["properties"]:
             node = self.r.choice(node["properties"])
-        self.marks(node)
+        if both:
+            # every mark at once on one node (marks must compose, not shadow each other)
+            node["proposed"] = True
+            node["deprecated"] = "superseded"
+            node["since"] = "3.18.0"
+            node.setdefault("documentation", "Doc.")
+        else:
+            self.marks(node)
         self.log.append("E6 %s %s" % (sec, node.get("name", node.get("method"))))
 
     def E7(self):
@@ -328,7 +378,7 @@ def evolve(doc, rng, n_ops=None, force=None):
     """-> (doc, info) ; info = {log, touched structures, new structs, new enums, new methods, ops}"""
     e = Evo(doc, rng)
     k = n_ops if n_ops is not None else rng.choice([1, 2, 4, 8, 12])
-    menu = ["E1", "E1", "E2", "E2", "E3", "E4", "E5", "E5", "E6", "E7"]
+    menu = ["E1", "E1", "E2", "E2", "E3", "E4", "E5", "E5", "E6", "E7", "E8"]
     seq = list(force or []) + [rng.choice(menu) for _ in range(max(0, k - len(force or [])))]
     for op in seq:
         if isinstance(op, tuple):
